@@ -860,5 +860,108 @@ pub mod ss {
     pub open spec fn pop_queued_post(g: Graph, b1: BuildStates, r: Option<BuildId>) -> bool {
         bs_inv(g, b1) && (r is Some ==> set_ok(g, b1, r.unwrap(), BuildState::Running) && st_of(b1)[ix(r.unwrap())] == BuildState::Queued)
     }
+
+    // --- C18: the wanted set is closed under explicit, implicit, order-only and validation inputs
+    pub open spec fn prod_wanted(g: Graph, st: Seq<BuildState>, f: FileId) -> bool {
+        gs::fid_ok(g, f) && match gs::files(g)[ix(f)].input { Some(p) => ix(p) < st.len() && st[ix(p)] != BuildState::Unknown, None => true }
+    }
+    pub open spec fn closed_ord(g: Graph, st: Seq<BuildState>, b: int) -> bool {
+        forall|j: int| 0 <= j < gs::ordering_ins(gs::builds(g)[b]).len() ==> prod_wanted(g, st, #[trigger] gs::ordering_ins(gs::builds(g)[b])[j])
+    }
+    pub open spec fn closed_val(g: Graph, st: Seq<BuildState>, b: int) -> bool {
+        forall|j: int| 0 <= j < gs::validation_ins(gs::builds(g)[b]).len() ==> prod_wanted(g, st, #[trigger] gs::validation_ins(gs::builds(g)[b])[j])
+    }
+    /// every wanted build has the producers of all its ordering inputs wanted (holds at every moment)
+    pub open spec fn closed_u(g: Graph, st: Seq<BuildState>) -> bool {
+        forall|b: int| 0 <= b < st.len() && #[trigger] st[b] != BuildState::Unknown ==> closed_ord(g, st, b)
+    }
+    /// ... and of all its validation inputs (holds between top-level want_file calls)
+    pub open spec fn closed_v(g: Graph, st: Seq<BuildState>) -> bool {
+        forall|b: int| 0 <= b < st.len() && #[trigger] st[b] != BuildState::Unknown ==> closed_val(g, st, b)
+    }
+    /// builds that became wanted during a call have their validation inputs' producers wanted when it returns
+    pub open spec fn new_closed_v(g: Graph, s0: Seq<BuildState>, s1: Seq<BuildState>) -> bool {
+        forall|b: int| 0 <= b < s0.len() && s0[b] == BuildState::Unknown && #[trigger] s1[b] != BuildState::Unknown ==> closed_val(g, s1, b)
+    }
+    pub proof fn lemma_prod_wanted_mono(g: Graph, b0: BuildStates, b1: BuildStates, f: FileId)
+        requires mono(b0, b1), prod_wanted(g, st_of(b0), f)
+        ensures prod_wanted(g, st_of(b1), f)
+    {}
+    pub proof fn lemma_closed_mono(g: Graph, b0: BuildStates, b1: BuildStates, b: int)
+        requires mono(b0, b1)
+        ensures closed_ord(g, st_of(b0), b) ==> closed_ord(g, st_of(b1), b), closed_val(g, st_of(b0), b) ==> closed_val(g, st_of(b1), b)
+    {
+        if closed_ord(g, st_of(b0), b) {
+            assert forall|j: int| 0 <= j < gs::ordering_ins(gs::builds(g)[b]).len() implies prod_wanted(g, st_of(b1), #[trigger] gs::ordering_ins(gs::builds(g)[b])[j]) by {
+                lemma_prod_wanted_mono(g, b0, b1, gs::ordering_ins(gs::builds(g)[b])[j]);
+            }
+        }
+        if closed_val(g, st_of(b0), b) {
+            assert forall|j: int| 0 <= j < gs::validation_ins(gs::builds(g)[b]).len() implies prod_wanted(g, st_of(b1), #[trigger] gs::validation_ins(gs::builds(g)[b])[j]) by {
+                lemma_prod_wanted_mono(g, b0, b1, gs::validation_ins(gs::builds(g)[b])[j]);
+            }
+        }
+    }
+    pub proof fn lemma_new_closed_trans(g: Graph, a: BuildStates, b: BuildStates, c: BuildStates)
+        requires mono(a, b), mono(b, c), new_closed_v(g, st_of(a), st_of(b)), new_closed_v(g, st_of(b), st_of(c))
+        ensures new_closed_v(g, st_of(a), st_of(c))
+    {
+        assert forall|i: int| 0 <= i < st_of(a).len() && st_of(a)[i] == BuildState::Unknown && #[trigger] st_of(c)[i] != BuildState::Unknown implies closed_val(g, st_of(c), i) by {
+            if st_of(b)[i] != BuildState::Unknown { lemma_closed_mono(g, b, c, i); }
+        }
+    }
+    pub proof fn lemma_closed_u_mono(g: Graph, b0: BuildStates, b1: BuildStates)
+        requires mono(b0, b1), closed_u(g, st_of(b0)),
+            forall|b: int| 0 <= b < st_of(b0).len() && st_of(b0)[b] == BuildState::Unknown && #[trigger] st_of(b1)[b] != BuildState::Unknown ==> closed_ord(g, st_of(b1), b)
+        ensures closed_u(g, st_of(b1))
+    {
+        assert forall|b: int| 0 <= b < st_of(b1).len() && #[trigger] st_of(b1)[b] != BuildState::Unknown implies closed_ord(g, st_of(b1), b) by {
+            if st_of(b0)[b] != BuildState::Unknown { lemma_closed_mono(g, b0, b1, b); }
+        }
+    }
+    pub proof fn lemma_closed_v_top(g: Graph, b0: BuildStates, b1: BuildStates)
+        requires mono(b0, b1), closed_v(g, st_of(b0)), new_closed_v(g, st_of(b0), st_of(b1))
+        ensures closed_v(g, st_of(b1))
+    {
+        assert forall|b: int| 0 <= b < st_of(b1).len() && #[trigger] st_of(b1)[b] != BuildState::Unknown implies closed_val(g, st_of(b1), b) by {
+            if st_of(b0)[b] != BuildState::Unknown { lemma_closed_mono(g, b0, b1, b); }
+        }
+    }
+
+    pub open spec fn new_closed_v_except(g: Graph, s0: Seq<BuildState>, s1: Seq<BuildState>, x: int) -> bool {
+        forall|b: int| 0 <= b < s0.len() && b != x && s0[b] == BuildState::Unknown && #[trigger] s1[b] != BuildState::Unknown ==> closed_val(g, s1, b)
+    }
+    pub proof fn lemma_new_closed_except_trans(g: Graph, a: BuildStates, b: BuildStates, c: BuildStates, x: int)
+        requires mono(a, b), mono(b, c), new_closed_v_except(g, st_of(a), st_of(b), x), new_closed_v(g, st_of(b), st_of(c))
+        ensures new_closed_v_except(g, st_of(a), st_of(c), x)
+    {
+        assert forall|i: int| 0 <= i < st_of(a).len() && i != x && st_of(a)[i] == BuildState::Unknown && #[trigger] st_of(c)[i] != BuildState::Unknown implies closed_val(g, st_of(c), i) by {
+            if st_of(b)[i] != BuildState::Unknown { lemma_closed_mono(g, b, c, i); }
+        }
+    }
+    /// a single legal `set` from Unknown/Want of build i keeps closed_u provided i's ordering producers are wanted
+    pub proof fn lemma_closed_u_set(g: Graph, b0: BuildStates, b1: BuildStates, i: int, state: BuildState)
+        requires closed_u(g, st_of(b0)), 0 <= i < st_of(b0).len(), st_of(b1) == st_of(b0).update(i, state), state != BuildState::Unknown,
+            closed_ord(g, st_of(b0), i)
+        ensures closed_u(g, st_of(b1))
+    {
+        assert forall|b: int| 0 <= b < st_of(b1).len() && #[trigger] st_of(b1)[b] != BuildState::Unknown implies closed_ord(g, st_of(b1), b) by {
+            if b != i { assert(st_of(b1)[b] == st_of(b0)[b]); }
+            assert(closed_ord(g, st_of(b0), b));
+            assert forall|j: int| 0 <= j < gs::ordering_ins(gs::builds(g)[b]).len() implies prod_wanted(g, st_of(b1), #[trigger] gs::ordering_ins(gs::builds(g)[b])[j]) by {
+                assert(prod_wanted(g, st_of(b0), gs::ordering_ins(gs::builds(g)[b])[j]));
+            }
+        }
+    }
+    pub proof fn lemma_val_set(g: Graph, b0: BuildStates, b1: BuildStates, i: int, state: BuildState, x: int)
+        requires 0 <= i < st_of(b0).len(), st_of(b1) == st_of(b0).update(i, state), state != BuildState::Unknown
+        ensures closed_val(g, st_of(b0), x) ==> closed_val(g, st_of(b1), x)
+    {
+        if closed_val(g, st_of(b0), x) {
+            assert forall|j: int| 0 <= j < gs::validation_ins(gs::builds(g)[x]).len() implies prod_wanted(g, st_of(b1), #[trigger] gs::validation_ins(gs::builds(g)[x])[j]) by {
+                assert(prod_wanted(g, st_of(b0), gs::validation_ins(gs::builds(g)[x])[j]));
+            }
+        }
+    }
     }
 }
